@@ -98,8 +98,8 @@ theorem depth_bounded_create (cx : Ctx) (run run' : Runner)
 /-- a frame running at depth 1025 cannot start another one: every CALL-family operation
     it executes fails with `ErrDepth` and gets its gas back -/
 theorem no_frame_beyond_1025 (cx : Ctx) (fuel : Nat) (ro : Bool) (fr : Frame) (k : CallKind) (addr : Nat)
-    (value : Word) (input : BA) (gas ro' rs : Nat) (g : Global) :
-    doInvoke cx (runLoop cx fuel) 1025 ro fr (.call k addr value input gas ro' rs) g
+    (value : Word) (input : BA) (gas ro' rs io : Nat) (g : Global) :
+    doInvoke cx (runLoop cx fuel) 1025 ro fr (.call k addr value input gas ro' rs io) g
       = ⟨#[], gas, some .depth, g, 0⟩ := by
   unfold doInvoke
   exact depth_limit_call _ _ _ _ _ _ _ _ _ _ _ _ (by omega)
